@@ -76,8 +76,9 @@ def _dag_cases(tier, rng):
             if len(users) >= 2:
                 for f in m["funcs"]:
                     f.get("defaults", {}).pop(p, None)
-                users[0].setdefault("defaults", {})[p] = "D_one"
-                users[1].setdefault("defaults", {})[p] = "D_two"
+                one, two = rng.choice((("D_one", "D_two"), (None, "D_two"), ("D_one", None), (0, 1), ((), (1,))))
+                users[0].setdefault("defaults", {})[p] = one
+                users[1].setdefault("defaults", {})[p] = two
                 yield {"dag": m, "fault": "inconsistent-defaults"}
 
 
@@ -126,8 +127,28 @@ def _snapshot(folder):
     return out
 
 
+def _template_multi_output(rng):
+    """x[i], y[j] -> a[i, j], b[i, j] ; each output has exactly one consumer."""
+    si, sj = rng.sample((1, 2, 3), 2)
+    return {"funcs": [
+        {"name": "f0", "params": ["x", "y"], "outputs": ["a", "b"],
+         "spec": {"inputs": [("x", ("i",)), ("y", ("j",))], "outputs": [("a", ("i", "j")), ("b", ("i", "j"))]},
+         "internal": None},
+        {"name": "f1", "params": ["a"], "outputs": ["c"],
+         "spec": {"inputs": [("a", ("i", "j"))], "outputs": [("c", ("i", "j"))]}, "internal": None},
+        {"name": "f2", "params": ["b"], "outputs": ["d"],
+         "spec": {"inputs": [("b", ("i", "j"))], "outputs": [("d", ("i", "j"))]}, "internal": None}],
+        "inputs": {"x": {"shape": (si,), "kind": "ndarray"}, "y": {"shape": (sj,), "kind": "list"}},
+        "sizes": {"i": si, "j": sj}}
+
+
 def _map_cases(tier, rng):
-    n = 120 if tier == "quick" else 1200
+    for _ in range(6 if tier == "quick" else 40):
+        prog = _template_multi_output(rng)
+        for ft in ("axis-swap-in-consumer", "axis-rename-in-consumer"):
+            for seed in range(4):
+                yield {"prog": prog, "fault": ft, "target": "x", "zipped": [], "seed": seed}
+    n = 900 if tier == "quick" else 9000
     q = 0
     while q < n:
         prog = progs.gen_map_program(rng, n_funcs=rng.randint(1, 3), allow_generator=False)
@@ -149,7 +170,7 @@ def _map_cases(tier, rng):
         zipped = [(a, sorted(v)) for a, v in ax.items() if len({n_ for n_, _ in v}) >= 2]
         if zipped:
             faults.append("zip-mismatch")
-        faults += ["mapspec-signature-mismatch", "inconsistent-axes"]
+        faults += ["mapspec-signature-mismatch", "inconsistent-axes", "axis-swap-in-consumer", "axis-rename-in-consumer"]
         for ft in faults:
             yield {"prog": prog, "fault": ft, "target": r0, "zipped": zipped[:1], "seed": rng.randrange(10**6)}
 
@@ -213,6 +234,71 @@ def _check_map(case):
             f["spec"]["outputs"] = [(o, tuple(ax_) + (new_ix,)) for o, ax_ in f["spec"]["outputs"]]
             if len(users) < 2 and not any(nme in dict(g["spec"]["inputs"]) for g in build_prog["funcs"] if g.get("spec") and g is not f):
                 return []  # the array is used once: adding an axis there is a (valid) different program
+        elif fault in ("axis-swap-in-consumer", "axis-rename-in-consumer"):
+            import random as _r
+            rr = _r.Random(case["seed"])
+            build_prog = copy.deepcopy(prog)
+            # a consumer of an array that another MapSpec (producer or second consumer) also describes
+            described: dict = {}
+            for f in build_prog["funcs"]:
+                if f.get("spec"):
+                    for nme, axes in f["spec"]["inputs"] + f["spec"]["outputs"]:
+                        described[nme] = described.get(nme, 0) + 1
+            cands = [(f, i) for f in build_prog["funcs"] if f.get("spec") for i, (nme, axes) in
+                     enumerate(f["spec"]["inputs"]) if described.get(nme, 0) >= 2
+                     and sum(a is not None for a in axes) >= (2 if fault == "axis-swap-in-consumer" else 1)]
+            if not cands:
+                return []
+            f, i = rr.choice(cands)
+            nme, axes = f["spec"]["inputs"][i]
+            named = [q for q, a in enumerate(axes) if a is not None]
+            if fault == "axis-swap-in-consumer":
+                q1, q2 = rr.sample(named, 2)
+                ren = {axes[q1]: axes[q2], axes[q2]: axes[q1]}
+                if prog["sizes"][axes[q1]] != prog["sizes"][axes[q2]]:
+                    pass
+                new_axes = tuple(ren.get(a, a) for a in axes)
+                # only this array's spec is changed: it now names its axes differently from the other MapSpecs
+                f["spec"]["inputs"][i] = (nme, new_axes)
+            else:
+                used = {a for _, ax_ in f["spec"]["inputs"] + f["spec"]["outputs"] for a in ax_}
+                fresh = next((x for x in ("m", "n", "p") if x not in used), None)
+                # positions of this array that another MapSpec names as well (otherwise the rename is harmless)
+                elsewhere = set()
+                for g_ in build_prog["funcs"]:
+                    if g_.get("spec") and g_ is not f:
+                        for n2, ax2 in g_["spec"]["inputs"] + g_["spec"]["outputs"]:
+                            if n2 == nme:
+                                elsewhere |= {q for q, a2 in enumerate(ax2) if a2 is not None}
+                named = [q for q in named if q in elsewhere]
+                if not named or fresh is None:
+                    return []
+                q1 = rr.choice(named)
+                old = axes[q1]
+                if any(old in ax_ for n_, ax_ in f["spec"]["inputs"] if n_ != nme):
+                    return []  # the index is shared with another input of this consumer: not a single-array fault
+                # rename the index consistently inside this consumer (a well-formed MapSpec on its own)
+                def rn(ax_):
+                    return tuple(fresh if a == old else a for a in ax_)
+                f["spec"]["inputs"] = [(n_, rn(ax_)) for n_, ax_ in f["spec"]["inputs"]]
+                f["spec"]["outputs"] = [(n_, rn(ax_)) for n_, ax_ in f["spec"]["outputs"]]
+                # downstream consumers of this function's outputs would also disagree now: that is still one fault
+            if ref.malformed_reason(f["spec"]) is not None:
+                return []
+        if build_prog is not prog:
+            # the pipeline itself is ill-formed: it must be rejected on its own (a fresh run, no previous folder that
+            # could reject the request for being different from the previous run)
+            log0: list = []
+            progs.set_log(log0)
+            try:
+                p1 = progs.build_pipeline(build_prog)
+                p1.map(progs.real_inputs(build_prog), parallel=False, storage="dict", **progs.map_kwargs(build_prog))
+                bad.append(f"{fault}: accepted (fresh run)")
+            except Exception:  # noqa: BLE001
+                if log0:
+                    bad.append(f"{fault}: user functions ran ({len(log0)} calls) before the rejection (fresh run)")
+            finally:
+                progs.set_log(None)
         log: list = []
         progs.set_log(log)
         try:
